@@ -455,7 +455,7 @@ pub fn cases(quick: bool) -> Vec<Case> {
     let lattice: Vec<R2> = vec![(0, 1), (1, 4), (1, 3), (1, 2), (3, 4), (1, 1)];
     let mut v = vec![];
     let fl = if quick { 2 } else { 3 };
-    for kind in [FlipKind::VecTag, FlipKind::VectorTag, FlipKind::Bits] {
+    for kind in [FlipKind::VecTag, FlipKind::VectorTag, FlipKind::Bits, FlipKind::VecSpare, FlipKind::VectorSpare, FlipKind::BitsSpare] {
         for l in 0..=fl {
             for r in &lattice {
                 v.push(Case::Flip { kind, ool: false, rate: *r, l });
@@ -506,7 +506,7 @@ pub fn cases(quick: bool) -> Vec<Case> {
     }
     for l in if quick { vec![63usize, 64, 65, 129] } else { vec![31, 32, 33, 63, 64, 65, 66, 100, 127, 128, 129, 130, 257] } {
         for which in 0..12u8 {
-            v.push(Case::Long { which, l, dev: if quick || which == 3 { 1 } else { 2 } });
+            v.push(Case::Long { which, l, dev: if quick || which == 3 || l > 130 { 1 } else { 2 } });
         }
     }
     for which in 0..3u8 {
